@@ -352,6 +352,11 @@ func attribute(a applied, ix *docIndex, l locInfo) string {
 	if a.Label != "delete" && len(enclosing) > 0 {
 		enclosing = enclosing[:len(enclosing)-1]
 	}
+	// a fault on the $ref member itself: {"$ref": …} stands for the referenced
+	// object, the object that owns it (media type, parameter) is the enclosing one
+	if n := len(a.Target); n > 0 && a.Target[n-1] == "$ref" && len(enclosing) > 0 {
+		enclosing = enclosing[:len(enclosing)-1]
+	}
 	best := ""
 	for _, c := range cands {
 		switch {
